@@ -205,6 +205,43 @@ func c18Planted(c *Ctx, maxFill int) {
 				} else {
 					c.Skip()
 				}
+				// (b2) an error raised by raise(...) whose arguments contain calls, also over several lines
+				for _, rs := range []string{"raise(\"E\", \"d\", len([1]))", "raise(\"E\",\n  concat([1], [2]),\n  len([1, 2]))", "raise(\"E\", \"{{len([1])}}\")"} {
+					rsrc := src + sep + rs
+					off = len(src) + len(sep)
+					c.Begin(rsrc)
+					erp2 := interpreter.NewECALRuntimeProvider("v", nil, nil)
+					erp2.Cron.Stop()
+					var rerr2 error
+					if pk, pm := Guard(func() {
+						ast, err := parser.ParseWithRuntime("v", rsrc, erp2)
+						if err != nil {
+							rerr2 = err
+							return
+						}
+						if err = ast.Runtime.Validate(); err != nil {
+							rerr2 = err
+							return
+						}
+						_, rerr2 = ast.Runtime.Eval(scope.NewScope(scope.GlobalScope), make(map[string]interface{}), erp2.NewThreadID())
+					}); pk != "" {
+						c.Viol(pk, pm, rsrc)
+					} else if re, ok := rerr2.(*util.RuntimeErrorWithDetail); ok && re.Type.Error() == "E" {
+						wl, wc := lineCol(rsrc, off)
+						c.Nontrivial()
+						if re.Line != wl || re.Pos != wc {
+							k := "wrong-position: raised error"
+							if afterHashComment(rsrc, off) {
+								k += " on the line after a # comment"
+							}
+							c.Viol(k, fmt.Sprintf("source %q: the error raised by raise(...) is reported at line %d column %d, the raise call is at line %d column %d", rsrc, re.Line, re.Pos, wl, wc), rsrc)
+						} else {
+							c.Outcome("raised-error-position-ok")
+						}
+					} else {
+						c.Skip()
+					}
+				}
 				// (c) statement separation is unaffected by comments
 				two := src + sep + "s1 := 1\n" + "/* k */ s2 := 2"
 				c.Begin(two)
